@@ -745,20 +745,19 @@ impl<W, R, T> CompilationScope<'_, W, R, T> {
                     .into_inner()
                 {
                     let expr = match part.as_rule() {
-                        Rule::f_expr => XStaticExpr::new_call_sym(
-                            to_str_sym,
-                            vec![self.parse_expr(part.into_inner().next().unwrap(), interner)?],
-                        ),
-                        Rule::f_with_formatting => {
+                        Rule::f_braced => {
                             let mut inner = part.into_inner();
                             let expr = self.parse_expr(
                                 inner.next().unwrap().into_inner().next().unwrap(),
                                 interner,
                             )?;
-                            let formatting = XStaticExpr::LiteralString(
-                                inner.next().unwrap().as_str().to_string(),
-                            );
-                            XStaticExpr::new_call_sym(format_sym, vec![expr, formatting])
+                            if let Some(formatting) = inner.next() {
+                                let formatting =
+                                    XStaticExpr::LiteralString(formatting.as_str().to_string());
+                                XStaticExpr::new_call_sym(format_sym, vec![expr, formatting])
+                            } else {
+                                XStaticExpr::new_call_sym(to_str_sym, vec![expr])
+                            }
                         }
                         _ => XStaticExpr::LiteralString(apply_brace_escape(
                             &apply_escapes(part.clone().as_str()).map_err(|e| e.trace(&part))?,
